@@ -436,25 +436,36 @@ def cli_shared_stream(ctx, violations, n=24):
     insp = ["registers", "print r0", "print r7", "break list", "break add x3006", "break remove x3006", "assembly x3000",
             "echo hello", "p msg", "bogus line", "print ^1"]
     cases, jobs, metas = [], [], []
-    for k in range(n):
-        cmds = [rnd.choice(insp) for _ in range(rnd.randrange(0, 5))]
+    # designed: three breakpoints in front of the first input instruction, added in every order, one of them removed, then as
+    # many `continue`s as breakpoints remain ahead - every pause happens before the program reads, so the session must equal
+    # the plain run; a pause that is missed lets the program read the script's own text
+    import itertools
+    designed = []
+    for perm in itertools.permutations(["x3000", "x3001", "x3002"]):
+        for gone in ("x3000", "x3001", "x3002"):
+            ahead = [a for a in ("x3001", "x3002") if a != gone]
+            designed.append(["break add " + a for a in perm] + ["break remove " + gone] + ["continue"] * len(ahead) + ["break list", "quit"])
+    for k in range(-len(designed), n):
+        cmds = list(designed[k + len(designed)]) if k < 0 else [rnd.choice(insp) for _ in range(rnd.randrange(0, 5))]
         safe = True
-        if rnd.random() < 0.5:
+        if k < 0:
+            pass
+        elif rnd.random() < 0.5:
             cmds.insert(rnd.randrange(len(cmds) + 1), rnd.choice(["step", "step into 2", "si 1"]))   # LEA, PUTS only
-        if k % 3 == 2:
+        if k >= 0 and k % 3 == 2:
             # anything goes: the program may read script text, the debugger may read program input (one stream)
             safe = False
             for _ in range(rnd.randrange(1, 4)):
                 cmds.insert(rnd.randrange(len(cmds) + 1), rnd.choice(["step into 3", "si 5", "continue", "step", "s", "c", "step into 4"]))
-        wide = safe and k % 4 == 1
+        wide = safe and k >= 0 and k % 4 == 1
         if wide:
             # lines with 2-, 3- and 4-byte characters: the one-stream model is ASCII only, so these sessions are
             # compared with the plain run alone (the debugger's own stdin decoder must hand every line on whole)
             for _ in range(rnd.randrange(1, 4)):
                 cmds.insert(rnd.randrange(len(cmds) + 1), "echo " + "".join(rnd.choice(["é", "→", "\U0001F34B", "a", " ", "\U00010000", "\U0010FFFF", "ß", "語"]) for _ in range(rnd.randrange(1, 6))))
-        if safe or rnd.random() < 0.7:
+        if k >= 0 and (safe or rnd.random() < 0.7):
             cmds.append(rnd.choice(["quit", "q", "QUIT"]))
-        if k % 5 == 3:
+        if k >= 0 and k % 5 == 3:
             # carriage returns: CRLF line ends (the CR belongs to the debugger's line, not to the program's input), and a CR
             # inside free text followed by what would be a command if the CR ended the line
             last_is_quit = bool(cmds) and cmds[-1].lower() in ("quit", "q")
